@@ -13,7 +13,7 @@ type Spelling struct {
 	Bullet    int    // 0 '-', 1 '*', 2 '+', 3 mixed per line (seeded)
 	Heading   int    // 0: bullet roots; 1..3: roots written as that many '#'
 	CRLF      bool
-	Blanks    int  // 0 none, 1 empty lines after some lines, 2 whitespace-only lines after some lines
+	Blanks    int  // 0 none, 1 empty lines after some lines, 2 whitespace-only lines after some lines, 3 lines of Unicode white space only
 	LeadBlank bool // a blank line before the first root
 	FinalNL   bool
 	Seed      uint64
@@ -37,7 +37,7 @@ func (s Spelling) String() string {
 }
 
 // AllSpellings enumerates the notation family (without leading blank line): 6 units x 4 bullet
-// policies x heading{0,1,2} x CRLF x blanks{0,1,2} x final newline = 576; heading variants must
+// policies x heading{0,1,2} x CRLF x blanks{0,1,2,3} x final newline = 768; heading variants must
 // be filtered by CanHeading per forest.
 func AllSpellings(seed uint64) []Spelling {
 	var out []Spelling
@@ -45,7 +45,7 @@ func AllSpellings(seed uint64) []Spelling {
 		for b := 0; b < 4; b++ {
 			for h := 0; h <= 2; h++ {
 				for _, crlf := range []bool{false, true} {
-					for bl := 0; bl <= 2; bl++ {
+					for bl := 0; bl <= 3; bl++ {
 						for _, fn := range []bool{true, false} {
 							out = append(out, Spelling{Unit: u, Bullet: b, Heading: h, CRLF: crlf, Blanks: bl, FinalNL: fn, Seed: seed})
 						}
@@ -75,7 +75,7 @@ func RandSpelling(r *Rand) Spelling {
 		Unit:    Units[r.Intn(len(Units))],
 		Bullet:  r.Intn(4),
 		CRLF:    r.Chance(1, 4),
-		Blanks:  []int{0, 0, 1, 2}[r.Intn(4)],
+		Blanks:  []int{0, 0, 1, 2, 3}[r.Intn(5)],
 		FinalNL: !r.Chance(1, 4),
 		Seed:    r.Uint64(),
 	}
@@ -141,6 +141,10 @@ func SpellLines(f model.Forest, s Spelling) []Line {
 			bl := ""
 			if s.Blanks == 2 {
 				bl = []string{" ", "\t", "  \t ", "    "}[r.Intn(4)]
+			}
+			if s.Blanks == 3 {
+				// white space beyond ASCII: ideographic space, no-break space, em space
+				bl = []string{"\u3000", "\u00a0", " \u2003 ", "\u00a0\t", "\u3000\u3000"}[r.Intn(5)]
 			}
 			out = append(out, Line{Text: bl, Node: -1})
 		}
